@@ -151,6 +151,10 @@ func vpH_C15_of_object() {
 		case 2:
 			ob.Replies = val
 		}
+		// what was set is what the holder's own type calls by that name (read through the struct's own
+		// field, generated from its definition: the helpers look at holders of every type through the
+		// Object view, which is only right while the layouts agree)
+		vpAssert("of/explicit-is-the-holders-own-property", vpGetItemField(holder, []string{"Likes", "Shares", "Replies"}[which]) == val)
 	}
 	got := c.Of(holder)
 	gotIRI := c.IRI(holder)
